@@ -5,6 +5,7 @@ in the repository. Oracle: vlib/gircheck.py, a structural validator over GIR XML
 the property statement, independent of giscanner.
 """
 import glob
+import re
 import os
 
 from hypothesis import strategies as st
@@ -100,12 +101,23 @@ def known_shape(case, v):
                 if k in CONTAINER_KINDS and any(a.startswith('(type ') for a in c['ann'].get(nm, [])):
                     return 'container-without-element-type:unresolvable-type-annotation'
     if v.clause == 'exception:ValueError@giscanner/ast.py:get_parameter_index' and case.get('meta'):
+        # an annotation names a parameter that the scanner takes out of the parameter list before the GIR is
+        # written: the trailing GError** (-> throws) or the first parameter (-> instance parameter)
+        m = re.search(r"Unknown argument (\w+)", v.detail)
+        gone = m.group(1) if m else None
         for c in case['meta']['callables']:
+            names = list(c['names'])
+            removable = set(names[:1])
             if c['kinds'] and c['kinds'][-1] == 'GError**':
-                for anns in c['ann'].values():
-                    for a in anns:
-                        if a in ('(closure error)', '(destroy error)') or 'length=error' in a:
-                            return 'crash:annotation-references-removed-gerror-parameter'
+                removable.add(names[-1])
+            if c['shape'] in ('method-rec', 'method-obj', 'vfunc'):
+                removable.add('self')
+            if gone not in removable:
+                continue
+            for anns in c['ann'].values():
+                for a in anns:
+                    if a in ('(closure %s)' % gone, '(destroy %s)' % gone) or 'length=%s' % gone in a:
+                        return 'crash:annotation-references-removed-gerror-parameter'
     return None
 
 
